@@ -66,6 +66,14 @@ CLAIMED = {
         "sockets with /proc/self/fd counts",
         "partial: kernel socket behaviour, ICMP timing, garbage collection and equal-deadline timer order are outside the model",
     ),
+    "C14": (
+        "proof (partial): for every finite set of coroutine-tree operations on one client and every schedule: every finished "
+        "operation returns its solo result and has emitted exactly its solo requests, at every moment its requests are a prefix "
+        "of the solo run (the only extra traffic is discovery probes), deliveries never touch another operation's state; tied by "
+        "running 2..6 real operations under a controllable scheduler that enumerates all answering orders (v2c, v3 authPriv, one "
+        "and two clients) and comparing the global wire-event order with the model's under the same schedule",
+        "partial: asyncio's no-preemption-between-awaits semantics is assumed; agent answers are a function of the request",
+    ),
     "C15": (
         "proof: for every raw result every wrapper method returns built-in types only (PyVal universe with an explicit leak "
         "constructor, dictionary keys included) and equals the element-wise pythonisation (tables: same items, index key moved "
